@@ -208,6 +208,14 @@ def run_case(ctx, case):
             origin = os.path.join(os.path.dirname(target), ".", os.path.basename(target))  # ..././name
         elif spell == 2 and case["target"] == "dir":
             origin = target + os.sep
+        if spell == 3 and case["target"] == "dir" and os.path.isdir(target):
+            # the exported tree lies next to the importing project under a name that extends the project's own, or
+            # inside the project directory (the documented `cd project && signac import` situation)
+            import shutil
+
+            origin = dst.path + "_export" if len(case["jobs"]) % 2 else os.path.join(dst.path, "incoming")
+            shutil.copytree(target, origin, symlinks=True)
+            ctx.count("import_origin_beside_or_inside_project")
         if origin != target:
             ctx.count("import_origin_spelt_unnormalised")
         if case["mode"] == "schema":
